@@ -2,6 +2,8 @@
 //! multiboot2 / multiboot2-common / multiboot2-header API in-process, writes one canonical
 //! observation line per case on stdout (flushed per line so that a crash pinpoints the case).
 mod common_fam;
+mod header_fam;
+mod ids_fam;
 mod util;
 
 use std::io::{BufRead, Write};
@@ -20,6 +22,11 @@ fn handle(ctx: &Ctx, line: &str) -> String {
         "LOAD" => common_fam::load_case(ctx, &t),
         "WALK" => common_fam::walk_case(ctx, &t),
         "RND" => common_fam::rnd_case(&t),
+        "FBT" => ids_fam::fbt_case(ctx, &t),
+        "MAGIC" => ids_fam::magic_case(),
+        "HLOAD" => header_fam::hload_case(ctx, &t),
+        "CKS" => header_fam::cks_case(&t),
+        "FIND" => header_fam::find_case(ctx, &t),
         f => format!("unknown-family:{}", f),
     }
 }
@@ -51,6 +58,27 @@ fn main() {
             let count: u64 = args[4].parse().unwrap();
             for b in first..first + count {
                 println!("{} {} {:016x}", f, b, common_fam::block_hash(f, b));
+            }
+        }
+        "sigs" => {
+            // sigs <fn> <first-value> <count>: per-value signatures (used to expand a differing block)
+            let f = &args[2];
+            let first: u64 = args[3].parse().unwrap();
+            let count: u64 = args[4].parse().unwrap();
+            let mut probe = ids_fam::ElfProbe::new();
+            let stdout = std::io::stdout();
+            let mut out = std::io::BufWriter::new(stdout.lock());
+            for v in first..first + count {
+                let s = match f.as_str() {
+                    "tt" => ids_fam::sig_tt(v as u32),
+                    "mat" => ids_fam::sig_mat(v as u32),
+                    "elf" => probe.sig(v as u32),
+                    "rnd" => multiboot2_common::increase_to_alignment(v as usize) as u64,
+                    "cks0" => header_fam::sig_cks(v as u32, false),
+                    "cks4" => header_fam::sig_cks(v as u32, true),
+                    _ => panic!("unknown fn"),
+                };
+                writeln!(out, "{} {:016x}", v, s).unwrap();
             }
         }
         "info" => {
